@@ -44,7 +44,7 @@ def seeds_table():
 
 def refac_table():
     out = []
-    for name, title in (("refactor_matrix.json", "round 1 (local rewrites)"), ("refactor2_matrix.json", "round 2 (other local rewrites)"), ("refactor3_matrix.json", "round 3 (medium-size structural refactorings)"), ("refactor4_matrix.json", "round 4 (control flow through return values, iterator pipelines, private state structs, tables)")):
+    for name, title in (("refactor_matrix.json", "round 1 (local rewrites)"), ("refactor2_matrix.json", "round 2 (other local rewrites)"), ("refactor3_matrix.json", "round 3 (medium-size structural refactorings)"), ("refactor4_matrix.json", "round 4 (control flow through return values, iterator pipelines, private state structs, tables)"), ("refactor5_matrix.json", "round 5 (clean-up commits mixing two or three rewrites in one function)")):
         p = os.path.join(V, "work", name)
         if not os.path.exists(p):
             continue
@@ -58,7 +58,7 @@ def refac_table():
             if al:
                 bad[sid] = al
         out.append(f"**{title}**: {len(m)} refactorings, {len(m) - len(bad)} silent on all 20 checks, {len(bad)} with an alarm" + (":" if bad else "."))
-        rd = {"refactor_matrix.json": "rfc", "refactor2_matrix.json": "rf2c", "refactor3_matrix.json": "rf3c", "refactor4_matrix.json": "rf4c"}[name]
+        rd = {"refactor_matrix.json": "rfc", "refactor2_matrix.json": "rf2c", "refactor3_matrix.json": "rf3c", "refactor4_matrix.json": "rf4c", "refactor5_matrix.json": "rf5c"}[name]
         for sid, al in sorted(bad.items()):
             out.append(f"* {rd}{sid[1:3]}/{sid.split('-')[-1]}: {', '.join(al)}")
     return "\n".join(out)
